@@ -4,9 +4,9 @@
    dictionaries, character classes and regular-expression texts come from Gen.TokenTables / Gen.Elements, regenerated
    from the source on every run. *)
 From Coq Require Import ZArith List String Ascii Bool.
-From Model Require Import PyBase Graph Valence Tokenize Parser Reader SmilesAst SmilesGraph SmilesOrder SmilesText Recheck.
-From Gen Require Import TokenTables.
-From Proofs Require Import TokenizeProofs ParserProofs ReaderProofs ReaderExt ReaderExt2 DenoteProofs GraphProofs OrderProofs TextProofs RecheckProofs.
+From Model Require Import PyBase Graph Valence Tokenize Parser Reader SmilesAst SmilesGraph SmilesOrder SmilesText CxGroups Recheck.
+From Gen Require Import TokenTables C03Source.
+From Proofs Require Import TokenizeProofs ParserProofs ReaderProofs ReaderExt ReaderExt2 DenoteProofs GraphProofs OrderProofs TextProofs CxProofs RecheckProofs RecheckTotal SourcePins.
 Import ListNotations.
 Open Scope Z_scope.
 
@@ -395,3 +395,46 @@ Theorem C03_denote_order_example :
   exists p, parse (spell t) true = Ok p /\ p_order p = denote_order t.
 Proof. exact denote_order_example. Qed.
 Print Assumptions C03_denote_order_example.
+
+(* ---- CXSMILES fragment grouping: the contraction code of smiles() (new_molecules array, shrinking role sets, negative product
+   indices) computes the grouping RULE of Model.CxGroups: molecules numbered in text order (reactants, reagents, products); a
+   non-empty group whose indices all name molecules of one role is applicable; its first (smallest) index holds the members joined
+   by '.', the other members disappear; groups across roles or beyond the molecule count change nothing.  For every reaction and
+   every list of non-empty groups without a repeated index - in particular every contract the CX block parser hands over. *)
+Theorem C03_contract_spec_correct : forall R P G contract, Forall (fun c => c <> []) contract -> NoDup (List.concat contract) ->
+  contract_roles contract R P G = Ok (contract_spec R P G contract).
+Proof. exact contract_spec_correct. Qed.
+Print Assumptions C03_contract_spec_correct.
+
+Theorem C03_cx_block_contract_spec : forall cxs rads c R P G, cx_block cxs = Ok (rads, Some c) ->
+  contract_roles c R P G = Ok (contract_spec R P G c).
+Proof. exact cx_block_contract_spec. Qed.
+Print Assumptions C03_cx_block_contract_spec.
+
+Theorem C03_contract_spec_example :
+  let ch := to_chars in
+  contract_spec (ch ["C"; "O"; "N"]%string) (ch ["S"; "F"]%string) (ch ["Cl"; "Br"; "I"]%string) [[0; 2]; [3; 4]; [6; 7]; [1; 5]] =
+    (ch ["C.N"; "O"]%string, ch ["S.F"]%string, ch ["Cl.Br"; "I"]%string) /\
+  contract_roles [[0; 2]; [3; 4]; [6; 7]; [1; 5]] (ch ["C"; "O"; "N"]%string) (ch ["S"; "F"]%string) (ch ["Cl"; "Br"; "I"]%string) =
+    Ok (ch ["C.N"; "O"]%string, ch ["S.F"]%string, ch ["Cl.Br"; "I"]%string).
+Proof. exact contract_spec_example. Qed.
+Print Assumptions C03_contract_spec_example.
+
+(* ---- totality of the FULL reader: smiles() including the hydrogen recheck / radical decision tree of create_molecule (C04's
+   calc_implicit / check_implicit / calc_labels_atom on the molecule just built; every element table compiles), for every text
+   and every setting of ignore / keep_implicit / ignore_aromatic_radicals / ignore_carbon_radicals / remap: a molecule / reaction
+   or a ValueError-class exception - never IndexError, KeyError, TypeError, AttributeError, ValenceError *)
+Theorem C03_read_full_total : forall fl remap s, total (read_full fl remap s).
+Proof. exact read_full_total. Qed.
+Print Assumptions C03_read_full_total.
+
+(* ---- the source the models mirror: the normalised text (no comments / layout / doc strings) of _tokenize, _atom_parse,
+   smiles_tokenize, parser, smiles, postprocess_parsed_molecule, postprocess_parsed_reaction, create_molecule and create_reaction,
+   regenerated from /repo on every run (Gen.C03Source), is line by line the text the hand-written models were written for *)
+Theorem C03_source_pinned :
+  src_tokenize = pin_tokenize /\ src_atom_parse = pin_atom_parse /\ src_smiles_tokenize = pin_smiles_tokenize /\ src_parser = pin_parser /\
+  src_smiles = pin_smiles /\ src_postprocess_parsed_molecule = pin_postprocess_parsed_molecule /\
+  src_postprocess_parsed_reaction = pin_postprocess_parsed_reaction /\ src_create_molecule = pin_create_molecule /\
+  src_create_reaction = pin_create_reaction.
+Proof. exact source_pinned. Qed.
+Print Assumptions C03_source_pinned.
